@@ -705,6 +705,13 @@ class Calls(Interp):
             st.locks_held = getattr(st, 'locks_held', 0) + (1 if name == 'acquire' else -1)
             yield st, (True if name == 'acquire' else None)
             return
+        if isinstance(recv, tuple) and recv and recv[0] == 'extobj':
+            # an object of an external library with stub contracts for its methods: ('extobj', kind, payload...)
+            h = self.externals.get('extobj:%s.%s' % (recv[1], name))
+            if h is None:
+                raise Outside("method %s of external object %s has no stub contract" % (name, recv[1]))
+            yield from h(self, st, [recv] + list(args), kwargs)
+            return
         if isinstance(recv, tuple) and recv and recv[0] in ('logger', 'opaque'):
             self.assumptions_used.add('A-LOG')
             yield st, None
@@ -827,7 +834,46 @@ class Calls(Interp):
         yield st, None
 
     def m_set_update(self, ref, h, args, kwargs, st, e):
-        raise Outside("set.update")
+        """s.update(iterable): the new set holds exactly the old members and the elements of the sequence (stated with a
+        skolem witness: for a new member, an index at which the sequence holds it)"""
+        (it,) = args
+        if isinstance(it, Ref):
+            it = self.lift(it, st)
+        if isinstance(it, (list, tuple)):
+            for x in it:
+                for _s, _r in self.m_set_add(ref, st.heap[ref.loc], [x], {}, st, e):
+                    pass
+            yield st, None
+            return
+        if not (isinstance(it, V) and it.ty.kind == 'list') or h.val is None:
+            raise Outside("set.update with %r" % (it,))
+        old = h.val
+        ety = old.ty.args[0]
+        es = to_sort(ety, self.reg)
+        new = self.fresh('updated', old.ty, st)
+        j = self.fresh_term('uj', z3.IntSort())
+        x = self.fresh_term('ux', es)
+        n = z3.Length(it.t)
+        w = self.uf('update_witness!%d' % next(self.fresh_counter), es, z3.IntSort())
+
+        def key(t):
+            return self.key_term(V(t, it.ty.args[0]), ety, st)
+        ed = self.elem_defs.get(it.t.get_id())
+        if ed is not None and ed[0].eq(it.t):
+            # the sequence comes from a comprehension: speak about its elements directly (one hop less for the solver)
+            _seq, ivar, val_t, _ety = ed
+            elem = lambda k: z3.substitute(val_t, (ivar, k))
+            lens = [c for c in st.pc if z3.is_eq(c) and c.arg(0).eq(z3.Length(it.t))]
+            if lens:
+                n = lens[-1].arg(1)
+        else:
+            elem = lambda k: it.t[k]
+        st.assume(z3.ForAll([j], z3.Implies(z3.And(j >= 0, j < n), z3.Select(new.t, key(elem(j))))))
+        st.assume(z3.ForAll([x], z3.Implies(z3.Select(old.t, x), z3.Select(new.t, x))))
+        st.assume(z3.ForAll([x], z3.Implies(z3.And(z3.Select(new.t, x), z3.Not(z3.Select(old.t, x))),
+                                            z3.And(w(x) >= 0, w(x) < n, key(elem(w(x))) == x))))
+        self._store_container(st, ref, h, new)
+        yield st, None
 
     def m_dict_get(self, ref, h, args, kwargs, st, e):
         if h.val is None:
@@ -1138,4 +1184,27 @@ class Calls(Interp):
         yield st, h.fields['data']
 
     def enumerate_map(self, m, what, st):
-        raise Outside("enumeration of a map's %s" % what)
+        """iteration over a finite map (A-ITER): some sequence of its keys, each key exactly once.  The facts stated are:
+        every visited element is a key, and no key is visited twice (pointwise at use via element definitions; the
+        completeness direction - every key is visited - is stated with a skolem index function)."""
+        if isinstance(m, Ref):
+            m = self.lift(m, st)
+        if not (isinstance(m, V) and m.ty.kind in ('map', 'set')):
+            raise Outside("enumeration of %r" % (m,))
+        if what != 'keys':
+            raise Outside("enumeration of a map's %s" % what)
+        kty = m.ty.args[0]
+        ks = to_sort(kty, self.reg)
+        order = self.fresh('keys', LIST(kty), st)
+        i = self.fresh_term('ki', z3.IntSort())
+        j = self.fresh_term('kj', z3.IntSort())
+        n = z3.Length(order.t)
+        present = (lambda t: opt_sort(to_sort(m.ty.args[1], self.reg)).is_some(z3.Select(m.t, t))) if m.ty.kind == 'map' \
+            else (lambda t: z3.Select(m.t, t))
+        st.assume(z3.ForAll([i], z3.Implies(z3.And(i >= 0, i < n), present(order.t[i]))))
+        st.assume(z3.ForAll([i, j], z3.Implies(z3.And(i >= 0, i < j, j < n), order.t[i] != order.t[j])))
+        idx = self.uf('key_index!%d' % next(self.fresh_counter), ks, z3.IntSort())
+        kk = self.fresh_term('kk', ks)
+        st.assume(z3.ForAll([kk], z3.Implies(present(kk), z3.And(idx(kk) >= 0, idx(kk) < n, order.t[idx(kk)] == kk))))
+        self.assumptions_used.add('A-ITER')
+        return order
